@@ -882,7 +882,9 @@ class _MIPS32_ELF(ABI):
         return self.get_register("sp")
 
     def temporary_label_prefix(self) -> str:
-        return ".L"
+        # The o32 ABI's private label prefix is "$": LLVM does not treat
+        # ".L" labels as temporary for this target.
+        return "$L"
 
     def default_dwarf_eh_return_column(self) -> int:
         return 32
